@@ -40,6 +40,14 @@ def run(ck):
     # dead once its owner is assigned to or destroyed (Lifecycle.tla: view, KeepViews); every transition of that model
     fv, nv = lc.gen(ck, "Gen_Lifecycle.views.cfg", "views", timeout=1800)
     files.append(fv)
+    # lineage-split witnesses: a ghost carried by every object records the last sizes it (or what it was copied / moved from)
+    # had, so TLC emits a witness for every transition out of states that differ only in HOW an object got its value
+    # (3 slots with canonical allocation, 1-D row-major fields of 2 and 3 cells, <= 7 ownership operations)
+    fl, nl = lc.gen(ck, "Gen_Lifecycle.lineageq.cfg" if ck.quick else "Gen_Lifecycle.lineage.cfg", "lineage", timeout=3000)
+    lc.replay(ck, [fl], ["asan"] if ck.quick else ["asan", "rel"], sample=2 if ck.quick else 1)
+    import os
+    os.remove(fl)
+    ck.bound("lineage_witness_configuration", "3 slots, sizes {2,3}, <=7 ops, lineage length %d" % (2 if ck.quick else 3))
     sim = 40 if ck.quick else 600
     f2, n2 = lc.gen(ck, "Gen_Lifecycle.sim.cfg", "sim", simulate=sim, depth=31, timeout=900)
     files.append(f2)
@@ -51,7 +59,9 @@ def run(ck):
     if b:
         for k in range(2 if ck.quick else 12):
             tr = ck.path("drive-%d.ndjson" % k)
-            rc, out, err = ck.run([b, "drive", str(ck.seed * 100 + k), "6", "70", tr], timeout=600)
+            # odd runs: every field 1-D row-major with 2 or 3 cells, so that chains of assignments between differently sized
+            # fields are dense
+            rc, out, err = ck.run([b, "drive", str(ck.seed * 100 + k), "6", "70", tr] + (["focus"] if k % 2 else []), timeout=600)
             s = ck.harness_output("lifecycle-drive", rc, out, err)
             if rc == 0:
                 ck.validate_trace("Trace_Lifecycle", "Trace_Lifecycle.cfg", tr, "lifecycle/driver-trace", n_traces=6, n_events=s.get("events", 0))
